@@ -51,6 +51,8 @@ pub fn leaves() -> Vec<Ast> {
         Ast::Lit(RV::Bool(false)),
         Ast::Var("x".into()),
         Ast::Var("u".into()),
+        // the empty value `()`
+        Ast::Unit,
         // failing atoms: arithmetic and type error
         Ast::Bin(BinOp::Div, Box::new(int(1)), Box::new(int(0))),
         Ast::Bin(BinOp::Add, Box::new(Ast::Lit(RV::Bool(true))), Box::new(int(1))),
@@ -145,5 +147,5 @@ pub fn has_assignment(a: &Ast) -> bool {
 
 /// Initial variable bindings the programs are run in.
 pub fn initial_contexts() -> Vec<Vec<(&'static str, RV)>> {
-    vec![vec![], vec![("x", RV::Int(1))], vec![("x", RV::Bool(true))]]
+    vec![vec![], vec![("x", RV::Int(1))], vec![("x", RV::Bool(true))], vec![("x", RV::Tuple(vec![]))]]
 }
